@@ -46,13 +46,14 @@ theorem sparse_getitem_counterexample : ¬ Safe Examples.table Examples.sparseGe
 theorem sparse_getitem_fixed_safe : Safe Examples.table Examples.sparseGetitemFixedBranch [] :=
   Examples.sparseGetitemFixedBranch_safe
 
-/-- Every function of the regenerated IR conforms to its regenerated summary (kernel-evaluated). -/
+/-- Every function of the regenerated IR conforms to its regenerated summary (kernel-evaluated, `decide +kernel`
+per chunk of 60 functions in `Generated/C13IR*.lean`, assembled with `tableOK_append`). -/
 theorem generated_table_ok :
-    tableOK Generated.C13.sigma Generated.C13.sigma Generated.C13.table = true := by decide +kernel
+    tableOK Generated.C13.sigma Generated.C13.sigma Generated.C13.table = true := Generated.C13.table_ok
 
 /-- Same for the tree with the known root defects repaired. -/
 theorem generatedP_table_ok :
-    tableOK Generated.C13P.sigma Generated.C13P.sigma Generated.C13P.table = true := by decide +kernel
+    tableOK Generated.C13P.sigma Generated.C13P.sigma Generated.C13P.table = true := Generated.C13P.table_ok
 
 theorem generated_obligations_ok :
     Generated.C13.obligations.all (fun p => mutsWithin Generated.C13.sigma p.1 p.2) = true := by decide +kernel
